@@ -487,8 +487,8 @@ def setAll : List KeyFile → List Nat → List Nat
   | [], resp => resp
   | f :: fs, resp => setAll fs (resp.set f.ix f.secret)
 
-theorem getD_set (l : List Nat) (i j a : Nat) :
-    (l.set i a).getD j 0 = if i = j ∧ i < l.length then a else l.getD j 0 := by
+theorem getD_set {α : Type} (l : List α) (i j : Nat) (a d : α) :
+    (l.set i a).getD j d = if i = j ∧ i < l.length then a else l.getD j d := by
   simp only [List.getD_eq_getElem?_getD, List.getElem?_set]
   by_cases hij : i = j
   · subst hij
@@ -525,17 +525,20 @@ theorem setAll_get (fs : List KeyFile) (resp : List Nat) (hnd : (fs.map KeyFile.
       simp [hr f (by simp)]
     · exact ih _ hnd.2 (fun x hx => by simpa using hr x (by simp [hx])) f hf
 
-theorem seqLoop_ok_iff (n : Nat) (fs : List KeyFile) (resp r : List Nat) (hlen : resp.length = n)
-    (hz : ∀ f ∈ fs, f.secret ≠ 0) :
-    seqLoop n fs resp = .ok r ↔
-      (∀ f ∈ fs, 0 ≤ f.fileIndex ∧ f.fileIndex < n ∧ resp.getD f.ix 0 = 0) ∧
+theorem seqLoop_ok_iff (fx : Fixes) (hfx : fx.seenSlice = true) (n : Nat) (fs : List KeyFile) (resp r : List Nat)
+    (seen : List Bool) (hlen : seen.length = n) :
+    seqLoop fx n fs resp seen = .ok r ↔
+      (∀ f ∈ fs, 0 ≤ f.fileIndex ∧ f.fileIndex < n ∧ seen.getD f.ix false = false) ∧
       (fs.map KeyFile.ix).Nodup ∧ r = setAll fs resp := by
-  induction fs generalizing resp with
-  | nil => simp [seqLoop, setAll, eq_comm]
+  induction fs generalizing resp seen with
+  | nil =>
+    simp only [seqLoop, setAll]
+    constructor
+    · intro h; cases h; simp
+    · rintro ⟨_, _, h⟩; rw [h]
   | cons f fs ih =>
-    have hzf : f.secret ≠ 0 := hz f (by simp)
-    have hz' : ∀ g ∈ fs, g.secret ≠ 0 := fun g hg => hz g (by simp [hg])
     rw [seqLoop]
+    simp only [hfx, if_true]
     split
     · rename_i hni
       have h1 : f.fileIndex = -1 := by simpa [KeyFile.hasIndex] using hni
@@ -548,15 +551,18 @@ theorem seqLoop_ok_iff (n : Nat) (fs : List KeyFile) (resp r : List Nat) (hlen :
         · intro h; cases h
         · intro h; have := h.1 f (by simp); omega
       · rename_i h2
-        have hix : f.ix < resp.length := by unfold KeyFile.ix; omega
+        have hix : f.ix < seen.length := by unfold KeyFile.ix; omega
         split
         · rename_i h3
           constructor
           · intro h; cases h
-          · intro h; exact absurd (h.1 f (by simp)).2.2 (by simpa [KeyFile.ix] using h3)
+          · intro h
+            have := (h.1 f (by simp)).2.2
+            simp only [KeyFile.ix] at this
+            rw [this] at h3; cases h3
         · rename_i h3
-          have h3' : resp.getD f.ix 0 = 0 := by simpa [KeyFile.ix] using h3
-          rw [ih (resp.set f.fileIndex.toNat f.secret) (by simp [hlen]) hz']
+          have h3' : seen.getD f.ix false = false := by simpa [KeyFile.ix] using h3
+          rw [ih (resp.set f.fileIndex.toNat f.secret) (seen.set f.fileIndex.toNat true) (by simp [hlen])]
           constructor
           · rintro ⟨ha, hnd, hr⟩
             refine ⟨?_, ?_, ?_⟩
@@ -568,7 +574,7 @@ theorem seqLoop_ok_iff (n : Nat) (fs : List KeyFile) (resp r : List Nat) (hlen :
                 have h4 := this.2.2
                 rw [getD_set] at h4
                 split at h4
-                · exact absurd h4 hzf
+                · cases h4
                 · exact h4
             · simp only [List.map_cons, List.nodup_cons]
               refine ⟨?_, hnd⟩
@@ -576,10 +582,10 @@ theorem seqLoop_ok_iff (n : Nat) (fs : List KeyFile) (resp r : List Nat) (hlen :
               obtain ⟨g, hg, hgi⟩ := List.mem_map.1 hm
               have h4 := (ha g hg).2.2
               rw [getD_set] at h4
-              have : f.fileIndex.toNat = g.ix ∧ f.fileIndex.toNat < resp.length :=
+              have : f.fileIndex.toNat = g.ix ∧ f.fileIndex.toNat < seen.length :=
                 ⟨by simpa [KeyFile.ix] using hgi.symm, hix⟩
               rw [if_pos this] at h4
-              exact hzf h4
+              cases h4
             · simpa [setAll, KeyFile.ix] using hr
           · rintro ⟨ha, hnd, hr⟩
             simp only [List.map_cons, List.nodup_cons, List.mem_map, not_exists, not_and] at hnd
@@ -588,24 +594,25 @@ theorem seqLoop_ok_iff (n : Nat) (fs : List KeyFile) (resp r : List Nat) (hlen :
             have := ha g (by simp [hg])
             refine ⟨this.1, this.2.1, ?_⟩
             rw [getD_set]
-            have hne : ¬ (f.fileIndex.toNat = g.ix ∧ f.fileIndex.toNat < resp.length) := by
+            have hne : ¬ (f.fileIndex.toNat = g.ix ∧ f.fileIndex.toNat < seen.length) := by
               intro h; exact hnd.1 g hg (by simpa [KeyFile.ix] using h.1.symm)
             rw [if_neg hne]
             exact this.2.2
 
-theorem getD_replicate_zero (n j : Nat) : (List.replicate n 0).getD j 0 = 0 := by
+theorem getD_replicate_false (n j : Nat) : (List.replicate n false).getD j false = false := by
   simp only [List.getD_eq_getElem?_getD, List.getElem?_replicate]
   split <;> rfl
 
-theorem sequencedKeys_ok_iff (k : List KeyFile) (r : List Nat) (hz : ∀ f ∈ k, f.secret ≠ 0) :
+/-- `SequencedKeys` as it is in /repo (repaired duplicate test): no hypothesis on the keys. -/
+theorem sequencedKeys_ok_iff (k : List KeyFile) (r : List Nat) :
     sequencedKeys k = .ok r ↔
       (∀ f ∈ k, 0 ≤ f.fileIndex ∧ f.fileIndex < k.length) ∧ (k.map KeyFile.ix).Nodup ∧
         r = setAll k (List.replicate k.length 0) := by
-  unfold sequencedKeys
-  rw [seqLoop_ok_iff k.length k _ r (by simp) hz]
+  unfold sequencedKeys sequencedKeysWith
+  rw [seqLoop_ok_iff Fixes.current rfl k.length k _ r _ (by simp)]
   constructor
   · rintro ⟨h1, h2, h3⟩; exact ⟨fun f hf => ⟨(h1 f hf).1, (h1 f hf).2.1⟩, h2, h3⟩
-  · rintro ⟨h1, h2, h3⟩; exact ⟨fun f hf => ⟨(h1 f hf).1, (h1 f hf).2, getD_replicate_zero _ _⟩, h2, h3⟩
+  · rintro ⟨h1, h2, h3⟩; exact ⟨fun f hf => ⟨(h1 f hf).1, (h1 f hf).2, getD_replicate_false _ _⟩, h2, h3⟩
 
 /-- pigeonhole: `n` different numbers below `n` are all of them. -/
 theorem perm_range_of_nodup (l : List Nat) (n : Nat) (hnd : l.Nodup) (hlt : ∀ x ∈ l, x < n) (hlen : l.length = n) :
@@ -637,9 +644,9 @@ theorem nodup_ix_iff {k : List KeyFile} (h1 : ∀ f ∈ k, 0 ≤ f.fileIndex) :
       have := h1 f (by simp); have := h1 g (by simp [hg])
       unfold KeyFile.ix at he; omega
 
-theorem seqLoop_rejects (n : Nat) (fs : List KeyFile) (resp : List Nat)
-    (h : ∃ f ∈ fs, f.fileIndex < 0 ∨ f.fileIndex ≥ n) : ∃ e, seqLoop n fs resp = .error e := by
-  induction fs generalizing resp with
+theorem seqLoop_rejects (fx : Fixes) (n : Nat) (fs : List KeyFile) (resp : List Nat) (seen : List Bool)
+    (h : ∃ f ∈ fs, f.fileIndex < 0 ∨ f.fileIndex ≥ n) : ∃ e, seqLoop fx n fs resp seen = .error e := by
+  induction fs generalizing resp seen with
   | nil => simp at h
   | cons g fs ih =>
     simp only [seqLoop]
@@ -648,13 +655,16 @@ theorem seqLoop_rejects (n : Nat) (fs : List KeyFile) (resp : List Nat)
     · split
       · exact ⟨_, rfl⟩
       · rename_i hg
-        split
-        · exact ⟨_, rfl⟩
-        · apply ih
+        generalize (if fx.seenSlice = true then seen.getD g.fileIndex.toNat false
+          else decide (resp.getD g.fileIndex.toNat 0 ≠ 0)) = c
+        cases c
+        · simp only [Bool.false_eq_true, if_false]
+          apply ih
           obtain ⟨f, hf, hbad⟩ := h
           rcases List.mem_cons.1 hf with rfl | hf
           · exact absurd hbad hg
           · exact ⟨f, hf, hbad⟩
+        · exact ⟨_, rfl⟩
 
 /-! ### KeysharesToValidatorPubkey -/
 
@@ -1282,13 +1292,7 @@ theorem roundtrip_load {w w' : World} {dir : Str} {b : Bool} {secrets pws : List
   refine ⟨order.map g, ?_, ?_, ?_, ?_⟩
   · unfold loadFilesUnordered
     rw [if_neg hone, collect_ok hg']
-  · have hz : ∀ f ∈ order.map g, f.secret ≠ 0 := by
-      intro f hf
-      obtain ⟨p, hp, rfl⟩ := List.mem_map.1 hf
-      obtain ⟨k, hk, rfl⟩ := hmemo p hp
-      simp only [g, hkOf k hk, List.getD_eq_getElem?_getD, List.getElem?_eq_getElem hk, Option.getD_some]
-      exact hnz _ (List.getElem_mem hk)
-    rw [sequencedKeys_ok_iff _ _ hz]
+  · rw [sequencedKeys_ok_iff]
     have hl : (order.map g).length = secrets.length := by simpa using hlenO
     refine ⟨?_, (hix.nodup_iff).2 List.nodup_range, ?_⟩
     · intro f hf
